@@ -8,9 +8,9 @@ use std::collections::BTreeMap;
 use std::fs;
 use std::path::{Path, PathBuf};
 
-pub const C1: &str = "// SPDX-License-Identifier: MIT\npragma solidity 0.8.17;\n\ninterface IToken { function transfer(address to, uint256 v) external returns (bool); }\n\ncontract First {\n    uint256 private x;\n    IToken token;\n\n    function run(uint256 a, uint256 b, uint256 c) public payable returns (uint256) {\n        uint256 i = a + b;\n        i++;\n        token.transfer(msg.sender, a / b * c);\n        return i;\n    }\n\n    constructor() {}\n}\n";
-pub const C2: &str = "// SPDX-License-Identifier: MIT\npragma solidity ^0.8.17;\n\ninterface IToken2 { function approve(address to, uint256 v) external returns (bool); }\n\ncontract Second {\n    uint256 private y;\n    IToken2 token;\n\n    function g(uint256 a, uint256 b) private returns (uint256) {\n        if (a >= b) {\n            token.approve(address(this), a - b);\n        }\n        return a;\n    }\n}\n";
-pub const C3: &str = "// SPDX-License-Identifier: MIT\npragma solidity 0.8.17;\n\ncontract Empty {}\n";
+pub const C1: &str = include_str!("../../corpus/dirwalk/c1.sol");
+pub const C2: &str = include_str!("../../corpus/dirwalk/c2.sol");
+pub const C3: &str = include_str!("../../corpus/dirwalk/c3.sol");
 
 pub fn abstract_patterns(cat: &str) -> [&'static str; 3] {
     match cat {
